@@ -18,5 +18,7 @@ Check sstep_refines : forall hist s c, SInv hist s ->
       o = map (fun e => ONotify (snd e) v) (filter (fun e => fst e =? k) (obl s)) /\
       (forall id, ~ In (k, id) (obl s'))
   | Reopen => o = [] /\ obl s' = []
+  | Cancel id => o = [] /\ (forall k, ~ In (k, id) (obl s')) /\
+                 (forall k id', id' <> id -> (In (k, id') (obl s') <-> In (k, id') (obl s)))
   end.
 Print Assumptions sstep_refines.
